@@ -102,6 +102,8 @@ theorem hdrSt_ok (bufLen : Nat) (tr : Server.Transport) (payload id opcode : Nat
     hdrSt_fields (fun s => s.limit = lim0 tr) (fun _ _ h => h) _ _ _ _ hmin
   refine ⟨hdrSt_fields (fun s => s.sect = .question) (fun _ _ h => h) _ _ _ _ rfl,
     hdrSt_fields (fun s => s.qdcount = 0) (fun _ _ h => h) _ _ _ _ rfl,
+    hdrSt_fields (fun s => s.ancount = 0) (fun _ _ h => h) _ _ _ _ rfl,
+    hdrSt_fields (fun s => s.nscount = 0) (fun _ _ h => h) _ _ _ _ rfl,
     hdrSt_fields (fun s => s.arcount = 0) (fun _ _ h => h) _ _ _ _ rfl,
     hdrSt_fields (fun s => s.qname = none) (fun _ _ h => h) _ _ _ _ rfl,
     hdrSt_fields (fun s => s.mostRecentOwner = none) (fun _ _ h => h) _ _ _ _ rfl,
